@@ -25,9 +25,9 @@ PY = sys.executable
 RUNS = {
     "C08": {"quick": 1600, "thorough": 48000},
     "C09": {"quick": 1920, "thorough": 48000},
-    "C10": {"quick": 800, "thorough": 24000},
+    "C10": {"quick": 800, "thorough": 16000},
 }
-RESTART_EVERY = {"quick": 8, "thorough": 1}
+RESTART_EVERY = {"quick": 8, "thorough": 2}
 TASK_WALL = 900  # seconds, backstop per chunk of runs
 
 
